@@ -13,6 +13,7 @@ from typing import Any, Dict, List
 
 from .. import tlc
 from ..core import Outcome, Prop, Run, known_ids, write_replay
+from .component import MULTIINDEX, compare_mi_c10
 
 BACKENDS = ["pandas", "polars"]
 
@@ -132,7 +133,9 @@ def _show(p: Dict[str, Any]) -> str:
             "bool": lambda: str(p["b"]), "null": lambda: "null", "ts": lambda: "Timestamp(2020-01-01)"}[vk]()
 
 
-def compare(vec: Dict[str, Any], obs: Dict[str, Any]) -> Outcome:      # no vector slices
+def compare(vec: Dict[str, Any], obs: Dict[str, Any]) -> Outcome:
+    if vec.get("kind") == "multiindex":
+        return compare_mi_c10(vec, obs)
     return Outcome()
 
 
@@ -150,7 +153,7 @@ PROP = Prop(
                "(code->spec conformance); containers enumerated by TLC from the specification's value pool"),
     id="C10",
     title="Coercion either yields conforming data or names exactly the uncoercible values",
-    slices=[],
+    slices=[MULTIINDEX],
     compare=compare,
     extra=contract,
     replay=replay,
